@@ -138,6 +138,7 @@ func subRef(owner types.Type, i int, base *Term) *Term {
 	r.AddFact(Eq(App(name+"$inv", SRef, r), base))
 	r.AddFact(Eq(birth(r), birth(base)))
 	r.AddFact(Eq(App("kind", SInt, r), IntLit(subKinds[name])))
+	r.AddFact(Neq(r, Null))
 	return r
 }
 
@@ -149,6 +150,7 @@ func elemRef(et types.Type, arr, idx *Term) *Term {
 	r.AddFact(Eq(App(name+"$idx", BV(64), r), idx))
 	r.AddFact(Eq(birth(r), birth(arr)))
 	r.AddFact(Eq(App("kind", SInt, r), IntLit(-1)))
+	r.AddFact(Neq(r, Null))
 	return r
 }
 
